@@ -34,7 +34,14 @@ def gen_scenario(rng, profile=None):
             sess.append(c)
         sessions.append(sess)
     block = rng.random() < profile.get("block_p", 0.75)
-    return {"workers": rng.choice([1, 2, 2, 3]), "resolver": rng.random() < 0.3, "block": block,
+    workers = rng.choice([1, 2, 2, 3])
+    if rng.random() < profile.get("cancel_p", 0.3):
+        # a session in which slow calls occupy every worker while further calls (cached or not) are cancelled in the queue
+        k = rng.randrange(len(sessions))
+        slow = [{"fn": rng.randrange(3), "arg": 90 + j, "kw": None, "hold": 0.4} for j in range(workers)]
+        rest = [dict(rng.choice(pool), **({"cancel": True} if rng.random() < 0.5 else {})) for _ in range(rng.choice([2, 3, 4]))]
+        sessions[k] = slow + rest + [dict(rng.choice(pool))]
+    return {"workers": workers, "resolver": rng.random() < 0.3, "block": block,
             "delay": rng.choice([0.0, 0.3, 0.6]), "seed": rng.randrange(1 << 30), "sessions": sessions,
             "perturb": {r: rng.choice([0, 0, 0.2, 0.5]) for r in ("main", "worker", "resolver", "disp")}, "timeout": 60}
 
@@ -122,9 +129,21 @@ def map_run(events):
         elif op == "listdir" and w["mode"] == "got":
             if w["key"] is None:
                 raise MapError("listdir before the key was computed", ev)
-            hit = (w["key"] + ".h5out") in ev["files"]
-            cur["labels"].append((th, "look"))
-            w["mode"] = "hit" if hit else "missed"
+            # the look-up; which label it is (look / lookCancelled) is decided by the set_running_or_notify_cancel that follows
+            w["hit"] = (w["key"] + ".h5out") in ev["files"]
+            w["mode"] = "looked"
+            w["slot"] = [th, None]                  # the label takes its place in the order HERE (the listing is the look-up)
+            cur["labels"].append(w["slot"])
+        elif op == "srn" and w["mode"] == "looked":
+            if ev.get("r"):
+                w["slot"][1] = "look"
+                w["mode"] = "hit" if w["hit"] else "missed"
+            else:
+                w["slot"][1] = "lookCancelled"
+                cur.setdefault("dropped", []).append(w["cur"])
+                w["mode"] = "idle"
+        elif op == "recv" and w["mode"] == "looked":
+            raise MapError("call sent to the worker process without set_running_or_notify_cancel", ev)
         elif op == "recv" and w["mode"] == "missed":
             if not ev.get("ok"):
                 raise MapError("worker received an error", ev)
@@ -144,6 +163,9 @@ def map_run(events):
             cur["labels"].append((th, "write"))
             w["mode"] = "written"
         elif op == "set_result":
+            if w["mode"] == "looked" and w.get("hit"):
+                w["slot"][1] = "look"                   # hit path without a cancelled-check (code before fix 9f1f260)
+                w["mode"] = "hit"
             if w["mode"] not in ("hit", "written"):
                 raise MapError("set_result in worker state " + w["mode"], ev)
             if ev["i"] != w["cur"]:
@@ -153,6 +175,9 @@ def map_run(events):
             raise MapError("worker failed a future: " + str(ev.get("exc")), ev)
         elif op == "thread_end" and ev.get("exc"):
             raise MapError("worker thread died: " + str(ev.get("msg")), ev)
+    for sess in sessions:
+        # a look-up whose outcome the trace does not show (it ends there) is left out
+        sess["labels"] = [(a, b) for a, b in sess["labels"] if b is not None]
     return sessions
 
 
@@ -181,7 +206,17 @@ def judge(model, scen, out):
             files_hist.append(sess["files_after"])
     if hang:
         oracles.append({"oracle": "cache_hang"})
+    cancelled_ok = set()
+    for run in out["runs"]:
+        for sess in run["obs"]["sessions"]:
+            for k, c in (sess.get("cancels") or {}).items():
+                if c:
+                    cancelled_ok.add(int(k))
     for i, r in sorted(results.items()):
+        if i in cancelled_ok:
+            if not r.get("cancelled"):
+                oracles.append({"oracle": "cache_cancelled_call_not_cancelled", "i": i, "got": r})
+            continue
         if not r.get("ok"):
             oracles.append({"oracle": "cache_call_failed", "i": i, "got": r})
         elif canon(r["value"]) != expected[i]:
@@ -272,6 +307,7 @@ def judge(model, scen, out):
                         keyOf=[keyids.get(keys.get(i), 10**6 + i) for i in range(ncalls)],
                         evalOf=[valids[expected[i]] for i in range(ncalls)], sessions=req_sessions)
         info["labels"] = sum(len(s["labels"]) for s in sessions)
+        info["lookCancelled"] = sum(1 for s in sessions for _, l in s["labels"] if l == "lookCancelled")
         if not rep["accepted"]:
             diff = {"kind": "trace_rejected", "session": rep["session"], "index": rep["index"],
                     "labels": req_sessions[rep["session"]]["labels"][: rep["index"] + 1][-8:]}
@@ -290,6 +326,11 @@ def judge(model, scen, out):
                     if want != got:
                         diff = {"kind": "result_differs_from_model", "i": i, "model": want, "impl": r["value"]}
                         break
+            mdropped = set()
+            for s_ in rep["sessions"]:
+                mdropped.update(s_.get("dropped", []))
+            if diff is None and mdropped != cancelled_ok:
+                diff = {"kind": "dropped_differs_from_model", "model": sorted(mdropped), "impl_cancel_returned_true": sorted(cancelled_ok)}
             # executions per class = number of compute labels per class (model) — exact re-execution check
             ncompute = sum(1 for s in sessions for _, l in s["labels"] if l == "compute")
             if diff is None and ncompute != len(wit):
